@@ -1,0 +1,81 @@
+// Copyright 2017 Pilosa Corp.
+//
+// Licensed under the Apache License, Version 2.0 (the "License");
+// you may not use this file except in compliance with the License.
+// You may obtain a copy of the License at
+//
+//     http://www.apache.org/licenses/LICENSE-2.0
+//
+// Unless required by applicable law or agreed to in writing, software
+// distributed under the License is distributed on an "AS IS" BASIS,
+// WITHOUT WARRANTIES OR CONDITIONS OF ANY KIND, either express or implied.
+// See the License for the specific language governing permissions and
+// limitations under the License.
+
+//go:build verif
+// +build verif
+
+package roaring
+
+// Export shims for the verification harness (/verif, properties C02 and C05). Add-only,
+// tag-guarded.
+
+// VerifC02ContainerValues lists the values held by one container, ascending, by decoding its
+// storage directly (no use of the container's cardinality field).
+func VerifC02ContainerValues(c *Container) []uint16 {
+	if c == nil {
+		return nil
+	}
+	var out []uint16
+	switch c.typ() {
+	case containerArray:
+		out = append(out, c.array()...)
+	case containerBitmap:
+		for i, w := range c.bitmap() {
+			for j := 0; j < 64; j++ {
+				if w&(uint64(1)<<uint(j)) != 0 {
+					out = append(out, uint16(i*64+j))
+				}
+			}
+		}
+	case containerRun:
+		for _, iv := range c.runs() {
+			for v := int(iv.start); v <= int(iv.last); v++ {
+				out = append(out, uint16(v))
+			}
+		}
+	}
+	return out
+}
+
+// VerifC02Lookaside reports the state of the last-container cache of b's container
+// collection: which collection it is, the cached key, whether a container is cached, and
+// whether the cached pointer is the one currently stored under that key.
+func VerifC02Lookaside(b *Bitmap) (kind string, lastKey uint64, hasLast bool, lastIsStored bool) {
+	switch cs := b.Containers.(type) {
+	case *bTreeContainers:
+		stored, _ := cs.tree.Get(cs.lastKey)
+		return "btree", cs.lastKey, cs.lastContainer != nil, stored == cs.lastContainer
+	case *sliceContainers:
+		var stored *Container
+		if i := search64(cs.keys, cs.lastKey); i >= 0 {
+			stored = cs.containers[i]
+		}
+		return "slice", cs.lastKey, cs.lastContainer != nil, stored == cs.lastContainer
+	}
+	return "other", 0, false, false
+}
+
+// VerifC02SliceEntries lists the keys held by a slice collection including the ones whose
+// container pointer is nil (the ContainerIterator skips those).
+func VerifC02SliceEntries(b *Bitmap) (keys []uint64, isNil []bool, ok bool) {
+	cs, ok := b.Containers.(*sliceContainers)
+	if !ok {
+		return nil, nil, false
+	}
+	for i, k := range cs.keys {
+		keys = append(keys, k)
+		isNil = append(isNil, cs.containers[i] == nil)
+	}
+	return keys, isNil, true
+}
